@@ -64,7 +64,8 @@ def main():
         except BaseException as e:  # harness-level problem or unexpected failure of the code under test
             res = {
                 "status": "inconclusive",
-                "reason": f"exception:{type(e).__name__}",
+                "reason": f"exception:{type(e).__name__}"
+                + (":dependency-says-not-known" if "is not known" in str(e) else ""),
                 "message": str(e)[:500],
                 "trace": traceback.format_exc()[-3000:],
             }
